@@ -5,7 +5,10 @@
 /*@ ghost */
 #define TD_N1 verif_ghost_int
 #define TD_N2 verif_ghost_int2
-#define TD_IN(n, v) (360.0 * (double)(n) <= (v) && (v) < 360.0 * ((double)(n) + 1.0))
+#define TD_IN(n, v) (-TD_MAXTURNS <= (n) && (n) < TD_MAXTURNS && 360.0 * (double)(n) <= (v) && (v) < 360.0 * ((double)(n) + 1.0))
+#ifndef TD_MAXTURNS
+#define TD_MAXTURNS 4096   /* quick tier: |lon| < 4096 turns; thorough tier: 2^31 turns */
+#endif
 /*@ clause frame src=property props=C14 */
 __CPROVER_assigns(vm_last_k)
 /*@ clause post.range src=property props=C08 */
